@@ -166,7 +166,10 @@ func (i *interpreter) makeSlice(fr *frame, tElt types.Type, lenV, capV value) va
 		w := kindWidth(s.k)
 		var bad *term
 		if kindSigned(s.k) {
-			bad = tb.or(tb.cmp(opSLt, s.t, tb.constBV(w, 0)), tb.cmp(opSLt, tb.constBV(w, uint64(limit)), s.t))
+			bad = tb.cmp(opSLt, s.t, tb.constBV(w, 0))
+			if w == 64 || uint64(limit) <= mask(w-1) {
+				bad = tb.or(bad, tb.cmp(opSLt, tb.constBV(w, uint64(limit)), s.t))
+			}
 		} else {
 			bad = tb.cmp(opULt, tb.constBV(w, uint64(limit)&mask(w)), s.t)
 			if w < 64 && uint64(limit) > mask(w) {
